@@ -14,7 +14,7 @@ InputList == <<  <<"ok","A","x">>, <<"ok","B","x">>, <<"bad","","y">> >>
 ThreadList == CHOOSE q \in [1..Cardinality(Threads) -> Threads] : \A a, b \in DOMAIN q : a # b => q[a] # q[b]
 TIndex(t) == CHOOSE k \in DOMAIN ThreadList : ThreadList[k] = t
 Obj(i) == Ref(i)
-GInit == /\ shared = <<>> /\ cache = <<>> /\ globals = "G0" /\ out = 0 /\ last = <<>> /\ ncalls = 0 /\ h = <<>>
+GInit == /\ XInit /\ shared = <<>> /\ cache = <<>> /\ globals = "G0" /\ out = 0 /\ last = <<>> /\ ncalls = 0 /\ h = <<>>
          /\ IF Mode = "accessors" THEN heap = <<Obj(InputList[1])>> /\ thr = [t \in Threads |-> Idle]
             ELSE IF Mode = "schedules" THEN heap = <<>> /\ thr = [t \in Threads |-> [pc |-> 1, in |-> InputList[((TIndex(t) - 1) % 2) + 1], scratch |-> <<>>, scores |-> <<>>]]
             ELSE heap = <<>> /\ thr = [t \in Threads |-> Idle]
@@ -25,12 +25,13 @@ Construct(i) == /\ Len(heap) < MaxObjs /\ ncalls < MaxCalls
                 /\ IF Malformed(i) THEN heap' = heap /\ last' = <<"raise", T1, i>>
                    ELSE heap' = Append(heap, Obj(i)) /\ last' = <<"object", T1, i, RefFilled(i), RefScores(i)>>
                 /\ ncalls' = ncalls + 1 /\ UNCHANGED <<thr, shared, cache, globals, out>>
-GNext == IF Mode = "accessors" THEN \E acc \in Accessors : Call(1, acc) /\ h' = Append(h, acc)
+GOldNext == IF Mode = "accessors" THEN \E acc \in Accessors : Call(1, acc) /\ h' = Append(h, acc)
          ELSE IF Mode = "schedules" THEN \E t \in Threads : AnyStep(t) /\ h' = Append(h, TIndex(t))
          ELSE \/ \E k \in 1..Len(InputList) : Construct(InputList[k]) /\ h' = Append(h, <<"new", k>>)
               \/ \E kind \in EntryPoints : EntryPoint(kind) /\ h' = Append(h, <<"entry", kind>>)
               \/ \E o \in 1..MaxObjs : Copy(o) /\ h' = Append(h, <<"copy", o>>)
               \/ \E o \in 1..MaxObjs, acc \in {"scores","clean","rh","json_sm","mutate_json","hash","internals"} : Call(o, acc) /\ h' = Append(h, <<"call", o, acc>>)
+GNext == GOldNext /\ UNCHANGED xvars
 GSpec == GInit /\ [][GNext]_gvars
 Complete == IF Mode = "schedules" THEN \A t \in Threads : thr[t].pc = 0 ELSE h # <<>>
 Emit == ~Complete \/ PrintT("GEN " \o ToJson([mode |-> Mode, h |-> h]))
